@@ -623,9 +623,7 @@ def discharge(ctx, obligations=None, timeout=20, procs=None, backends=('z3py', '
                             plan = [p for p in plan if p[0] == hints.get(keys[id(ob)])]
                         state[i] = dict(open=len(plan), resolved=len(plan) == 0, sat=None, refutes={(p[0], p[4]): p[5] for p in plan})
                         for p in plan:
-                            # a remembered strategy gets a short budget: if it is slow (stale hint), the whole portfolio runs
-                            # and the fastest strategy replaces it
-                            jobs.append((i, p[:5], min(timeout, 15) if hinted else timeout))
+                            jobs.append((i, p[:5], timeout))
                     if not jobs:
                         return state
                     for (i, nm, be, st_, secs, err) in _bounded_iter(pool.imap_unordered(_work, jobs, chunksize=1), hard_deadline, ctx):
